@@ -393,6 +393,30 @@ def buildDispatched (t : TransferAttrs) : List (String Ã— Int Ã— Int) :=
 
 def maxUint64 : Nat := 2 ^ 64 - 1
 
+/-- `updateDispatchedAmount`: read-modify-write of one (route, denom) entry; `none` = the checked
+addition overflowed (error). -/
+def addAmount (o : OrbState) (key : AmtKey) (inc out : Int) : Option OrbState :=
+  let cur := lookupD o.amounts key (0, 0)
+  let i := if inc > 0 then cur.1 + inc else cur.1
+  let u := if out > 0 then cur.2 + out else cur.2
+  if overflows256 i || overflows256 u then none
+  else some { o with amounts := upsert amtLt o.amounts key (i, u) }
+
+/-- The loop over the one or two entries of `BuildDenomDispatchedAmounts`; stops at the first error,
+keeping what was already written. -/
+def addAmounts (mk : String â†’ AmtKey) : List (String Ã— Int Ã— Int) â†’ OrbState â†’ OrbState Ã— Bool
+  | [], o => (o, true)
+  | e :: rest, o =>
+    match addAmount o (mk e.1) e.2.1 e.2.2 with
+    | none => (o, false)
+    | some o' => addAmounts mk rest o'
+
+/-- `updateDispatchedCounts`. -/
+def addCount (o : OrbState) (ck : CntKey) : OrbState Ã— Bool :=
+  let n := lookupD o.counts ck 0
+  if n == maxUint64 then (o, false)
+  else ({ o with counts := upsert cntLt o.counts ck (n + 1) }, true)
+
 /-- `UpdateStats`. An error leaves the amounts already written in place (the caller swallows it). -/
 def updateStats (o : OrbState) (t : TransferAttrs) (f : Forwarding) : OrbState Ã— Bool :=
   match f.attrs with
@@ -401,21 +425,10 @@ def updateStats (o : OrbState) (t : TransferAttrs) (f : Forwarding) : OrbState Ã
     let dcp := at_.counterpartyID
     if !crossChainValid t.srcProtocol t.srcCounterparty || !crossChainValid f.protocolId dcp then (o, false) else
     let dstId := ccidString f.protocolId dcp
-    let step (acc : OrbState Ã— Bool) (e : String Ã— Int Ã— Int) : OrbState Ã— Bool :=
-      if !acc.2 then acc else
-      let o := acc.1
-      let key : AmtKey := { srcProto := t.srcProtocol, srcCp := t.srcCounterparty, dstId := dstId, denom := e.1 }
-      let cur := lookupD o.amounts key (0, 0)
-      let inc := if e.2.1 > 0 then cur.1 + e.2.1 else cur.1
-      let out := if e.2.2 > 0 then cur.2 + e.2.2 else cur.2
-      if overflows256 inc || overflows256 out then (o, false)
-      else ({ o with amounts := upsert amtLt o.amounts key (inc, out) }, true)
-    let (o, ok) := (buildDispatched t).foldl step (o, true)
-    if !ok then (o, false) else
-    let ck : CntKey := { srcProto := t.srcProtocol, srcCp := t.srcCounterparty, dstProto := f.protocolId, dstCp := dcp }
-    let n := lookupD o.counts ck 0
-    if n == maxUint64 then (o, false)
-    else ({ o with counts := upsert cntLt o.counts ck (n + 1) }, true)
+    let mk (denom : String) : AmtKey := { srcProto := t.srcProtocol, srcCp := t.srcCounterparty, dstId := dstId, denom := denom }
+    let r := addAmounts mk (buildDispatched t) o
+    if !r.2 then (r.1, false)
+    else addCount r.1 { srcProto := t.srcProtocol, srcCp := t.srcCounterparty, dstProto := f.protocolId, dstCp := dcp }
 
 /-- `Dispatcher.DispatchPayload`: returns the context, the final attributes and the module state with the
 statistics updated (the only write the receive path makes to the module's own store). -/
